@@ -1,7 +1,9 @@
 package rg
 
 import (
+	"fmt"
 	"go/token"
+	"go/types"
 	"sort"
 	"strings"
 
@@ -140,4 +142,165 @@ var rR22k = RuleRef{Name: "R22k", Doc: "the commands that rewrite a string value
 	}
 	c.Count("R22k_executors", n)
 	c.Min("R22k_executors", len(deadlineKeepers))
+}}
+
+// ---------- R15p: a container fetched from the keyspace is used only in the hold in which it was fetched ----------
+
+var rR15p = RuleRef{Name: "R15p", Doc: "a container pointer (*List, *Hash, *Set, ...) obtained from a keyspace lookup is not used after the stripe has been released: in every function of package memdb, no instruction that uses the pointer (a method call, a field access, its capture by a closure) lies on a path that leaves the lookup, passes a non-deferred UnLock/RUnLock/UnLockMulti/RUnLockMulti and reaches the use without passing the lookup again. Between the release and a later acquire another client can empty, delete and re-create the key; the stale pointer then edits an orphaned object, the reply counts what nobody sees and a delete-when-empty removes the live key", Run: func(c *C) {
+	nFn, nGet := 0, 0
+	unlockNames := map[string]bool{"UnLock": true, "RUnLock": true, "UnLockMulti": true, "RUnLockMulti": true}
+	for _, fn := range c.P.allFuncs("memdb") {
+		if fn == nil || fn.Blocks == nil {
+			continue
+		}
+		nFn++
+		ord := 0
+		// lookups and the container pointers derived from each
+		for _, gb := range fn.Blocks {
+			for gi, in := range gb.Instrs {
+				g, ok := in.(*ssa.Call)
+				if !ok {
+					continue
+				}
+				cf := callee(g)
+				if cf == nil || !firstParty(cf) || cf.Name() != "Get" || cf.Signature.Recv() == nil || !strings.Contains(cf.Signature.Recv().Type().String(), "ConcurrentMap") {
+					continue
+				}
+				derived := map[ssa.Value]bool{}
+				var grow func(v ssa.Value, d int)
+				grow = func(v ssa.Value, d int) {
+					if d > 4 || v.Referrers() == nil {
+						return
+					}
+					for _, r := range *v.Referrers() {
+						switch y := r.(type) {
+						case *ssa.Extract:
+							if y.Index == 0 {
+								if _, isPtr := y.Type().Underlying().(*types.Pointer); isPtr {
+									derived[y] = true
+								} else {
+									grow(y, d+1)
+								}
+							}
+						case *ssa.TypeAssert:
+							if _, isPtr := y.AssertedType.Underlying().(*types.Pointer); isPtr {
+								if y.CommaOk {
+									grow(y, d+1)
+								} else {
+									derived[y] = true
+								}
+							}
+						}
+					}
+				}
+				grow(g, 0)
+				if len(derived) == 0 {
+					continue
+				}
+				// a pointer kept in a local that a closure captures lives in a cell: with a single store into the cell its
+				// loads are the pointer, and handing the cell to a closure is a use
+				cells := map[ssa.Value]bool{}
+				for v := range derived {
+					if v.Referrers() == nil {
+						continue
+					}
+					for _, r := range *v.Referrers() {
+						st, ok := r.(*ssa.Store)
+						if !ok || st.Val != v {
+							continue
+						}
+						al, ok := st.Addr.(*ssa.Alloc)
+						if !ok || al.Referrers() == nil {
+							continue
+						}
+						stores := 0
+						for _, ar := range *al.Referrers() {
+							if _, isSt := ar.(*ssa.Store); isSt {
+								stores++
+							}
+						}
+						if stores != 1 {
+							continue
+						}
+						cells[al] = true
+						for _, ar := range *al.Referrers() {
+							if ld, isLd := ar.(*ssa.UnOp); isLd && ld.Op == token.MUL {
+								derived[ld] = true
+							}
+						}
+					}
+				}
+				nGet++
+				ord++
+				uses := func(in ssa.Instruction) bool {
+					if _, isPhi := in.(*ssa.Phi); isPhi {
+						return false
+					}
+					_, isClosure := in.(*ssa.MakeClosure)
+					for _, op := range in.Operands(nil) {
+						if op != nil && *op != nil && (derived[*op] || isClosure && cells[*op]) {
+							return true
+						}
+					}
+					return false
+				}
+				// forward from the lookup: every non-deferred release reachable without passing the lookup again; from each
+				// release forward to a use, again stopping at the lookup
+				type at struct {
+					b *ssa.BasicBlock
+					i int
+				}
+				walk := func(start at, visit func(b *ssa.BasicBlock, i int, in ssa.Instruction) bool) {
+					seen := map[*ssa.BasicBlock]bool{}
+					work := []at{start}
+					for len(work) > 0 {
+						p := work[len(work)-1]
+						work = work[:len(work)-1]
+						stopped := false
+						for i := p.i; i < len(p.b.Instrs); i++ {
+							if p.b.Instrs[i] == ssa.Instruction(g) {
+								stopped = true
+								break
+							}
+							if visit(p.b, i, p.b.Instrs[i]) {
+								return
+							}
+						}
+						if stopped {
+							continue
+						}
+						for _, s := range p.b.Succs {
+							if !seen[s] {
+								seen[s] = true
+								work = append(work, at{s, 0})
+							}
+						}
+					}
+				}
+				bad := ""
+				walk(at{gb, gi + 1}, func(b *ssa.BasicBlock, i int, in ssa.Instruction) bool {
+					u, ok := in.(*ssa.Call)
+					if !ok {
+						return false
+					}
+					uf := callee(u)
+					if uf == nil || !firstParty(uf) || !unlockNames[uf.Name()] {
+						return false
+					}
+					walk(at{b, i + 1}, func(_ *ssa.BasicBlock, _ int, in2 ssa.Instruction) bool {
+						if uses(in2) {
+							bad = c.pos(in2.Pos()) + ": used after the release at " + c.pos(u.Pos())
+							return true
+						}
+						return false
+					})
+					return bad != ""
+				})
+				c.Add("R15p", fnName(fn), fmt.Sprintf("container from keyspace lookup #%d is not used after its stripe is released", ord), g.Pos(), bad == "", bad)
+			}
+		}
+	}
+	c.Count("R15p_functions", nFn)
+	c.Count("R15p_lookups", nGet)
+	c.Min("R15p_lookups", 40)
 }}
